@@ -9,7 +9,7 @@ from lib.rulelib import AtomOracle, arg_syms, get_fn, res_calls, short, syms, wa
 from lib.facts import callee
 from rules import partial_tables as pt
 
-RESP = "cedar_policy_core::tpe::response::Response::<'a>"
+RESP = "cedar_policy_core::tpe::response::Response"
 RP = "cedar_policy_core::tpe::response::ResidualPolicy"
 BUCKETS = ["true_permits", "false_permits", "error_permits", "residual_permits",
            "true_forbids", "false_forbids", "error_forbids", "residual_forbids"]
@@ -238,7 +238,7 @@ def views(chk, facts):
             chk.ob(rule, "From<ResidualPolicy>::condition", False, "undecided: %s" % e, where=f.where())
     # policy_set()/API views go through that conversion
     for name, must in ((RESP + "::policy_set", ["policies", "convert::From<" + RP]),
-                       ("cedar_policy::api::tpe::TpeResponse::<'a>::residual_policies", None),):
+                       ("cedar_policy::api::tpe::TpeResponse::residual_policies", None),):
         g = facts.fn(name)
         if g is None:
             if must is not None:
